@@ -127,6 +127,16 @@ CLAIMS["C15"] = (
     "violation; deliberate complaints are fine.",
     CLAIMS["C01"][2] + " The specification supplies the matrix, not expected values.", "DESIGN.md 4/C15")
 
+CLAIMS["C10"] = (
+    "TLA+ reference parser (XSyntax.tla: tokens, lexical adjacency rule NeedsSep, recursive-descent RefParse, engine-shaped "
+    "rendering EForm) - TLC enumerates every operator chain up to 2-5 operators with keyword-named operands, unary minus, "
+    "abbreviations (MC_Syntax.tla); each token string is rendered with 5 whitespace placements and parsed by the real "
+    "parser through the verif hook VerifParse; the tree must equal the reference tree; hook-independently the VALUE of "
+    "constant chains must be the value the reference grouping denotes",
+    "Exhaustive over all ordered operator pairs (16 operators) and triples; whitespace optional exactly where the "
+    "specification's adjacency rule says; abbreviations parse to their expansions.",
+    CLAIMS["C01"][2] + " The hook renders the parse tree read-only.", "DESIGN.md 4/C10")
+
 NOT_YET = "check not built yet in this round (see DESIGN.md section 9 for the construction order)"
 
 
